@@ -293,7 +293,7 @@ def run(db: DB, rep: Report) -> None:
                   "constructor" % k.name)
 
     # ---- M6: rate and count getters are pure functions of their arguments ---------
-    rep.rule("M6", "rate / count getters are pure and depend on their argument", 3)
+    rep.rule("M6", "rate / count getters are pure, unscaled and depend on their argument", 6)
     from sa.rules.c05 import self_writes
     getters = [db.func("teaal.ir.hardware.Hardware.get_frequency"),
                db.func("teaal.ir.component.Component.get_num_instances"),
@@ -307,6 +307,20 @@ def run(db: DB, rep: Report) -> None:
             rets = [n.value for n in walk_no_nested(g.node) if isinstance(n, ast.Return) and n.value is not None]
             names, exprs = paths.backward_slice(g.node, {x for r in rets for x in paths.load_names(r)})
             dep = g.call_params[0] in names or any(g.call_params[0] in paths.load_names(r) for r in rets)
+        # the value handed out is the configured attribute itself: no arithmetic on the way
+        arith = []
+        rets_ = [n.value for n in walk_no_nested(g.node) if isinstance(n, ast.Return) and n.value is not None]
+        for r_ in rets_:
+            for x in ast.walk(paths.inline_locals(r_, g.node)):
+                if isinstance(x, ast.BinOp) and not isinstance(x.op, ast.Add) or \
+                        (isinstance(x, ast.BinOp) and not any(isinstance(c_, ast.Constant) and isinstance(c_.value, str)
+                                                              for c_ in ast.walk(x))):
+                    arith.append(norm(x))
+        rep.check("M6", not arith, db.loc(g.node), g.short, "unscaled:" + g.short,
+                  "%s returns the configured value without arithmetic" % g.short,
+                  "%s scales the configured value (%s): the collector multiplies rate and instance count "
+                  "itself, so the factor would be applied twice (or a wrong rate used)" %
+                  (g.short, arith[0] if arith else ""))
         rep.check("M6", ok and dep, db.loc(g.node), g.short, "pure:" + g.short,
                   "%s writes no state%s" % (g.short, " and depends on '%s'" % g.call_params[0] if g.call_params else ""),
                   "%s %s: a value computed for one Einsum / configuration would be reused for another" %
@@ -517,6 +531,8 @@ def mutants(db: DB):
           "component = class_(name, num_instances, local[\"attributes\"], binding)",
           "component = class_(name, 1, local[\"attributes\"], binding)", "M3"),
         M("getter returns constant", comp, "        return self.num_instances\n", "        return 1\n", "M3"),
+        M("bandwidth getter already multiplies by instances", comp, "        return self.bandwidth\n",
+          "        return self.bandwidth * self.num_instances\n", "M6"),
         M("revert F5 fix in get_components", "teaal/ir/hardware.py",
           "            component = self.components[self.configs[einsum]][name]",
           "            component = [c[name] for c in self.components.values() if name in c][-1]", "M7"),
